@@ -108,7 +108,7 @@ type sys struct {
 
 	// shadow bookkeeping of hidden state, used only to label violations
 	readerStale bool   // the open reader was created before the last change of the DAG
-	brokenBy    string // which call left curWrOff != writeStart+len(wrBuf): "read" | "writeat-reset" | ""
+	brokenBy    string // which call left curWrOff != writeStart+len(wrBuf): "read" | "writeat" | ""
 }
 
 func (s *sys) track(kind string, pre, post mod.VerifC10State) {
@@ -127,7 +127,7 @@ func (s *sys) track(kind string, pre, post mod.VerifC10State) {
 	case kind == "Read":
 		s.brokenBy = "read"
 	case kind == "WriteAt" && !wasBroken:
-		s.brokenBy = "writeat-reset"
+		s.brokenBy = "writeat"
 	case s.brokenBy == "":
 		s.brokenBy = "other:" + kind
 	}
@@ -262,7 +262,7 @@ func (s *sys) Ops() []string {
 }
 
 func (s *sys) base() []string {
-	return []string{"file", s.file.name, "links", strconv.Itoa(s.links), "wb", strconv.Itoa(s.wb)}
+	return []string{"file", s.file.name, "links", strconv.Itoa(s.links), "wb", strconv.Itoa(s.wb), "leaf", s.file.leaf}
 }
 
 // dagFeatures inspects the modifier's current DAG (only when a violation is
@@ -356,6 +356,23 @@ func (s *sys) hazard(kind string, pre mod.VerifC10State, b []byte, off int64) st
 		}
 	}
 	return "none"
+}
+
+// wedged reports the case in which Read must not be executed because the
+// open reader's Walker would spin forever (see uio.VerifC10ReaderWedge): Sync
+// keeps the reader when nothing is pending, so dm.Read goes straight into
+// dagReader.CtxReadFull -> Walker.Iterate.
+func (s *sys) wedged(pre mod.VerifC10State, n int, feat []string, ctx string) *eng.Violation {
+	if !pre.ReaderOpen || pre.HasBuf || pre.WedgeLevel < 0 {
+		return nil
+	}
+	kind := "ancestor-level"
+	if pre.WedgeLevel == pre.WalkerDepth && !(pre.BufLeft >= 0 && pre.BufLeft >= n) {
+		kind = "active-level"
+	}
+	theRun.Add("execs_read_on_wedged_walker", 1)
+	return s.viol("read-never-returns", "Read", fmt.Sprintf("Read(len %d) not executed: the open reader's Walker has childIndex > ChildTotal at level %d (walker depth %d) because the root node it holds was shrunk in place; Walker.NextChild then returns nil without advancing and Walker.Iterate loops forever (%s)", n, pre.WedgeLevel, pre.WalkerDepth, kind)+ctx,
+		append(append([]string{}, feat...), "walker_wedged", kind))
 }
 
 func ok2(wh int) bool { return wh >= 0 && wh <= 2 }
@@ -459,7 +476,9 @@ func (s *sys) Do(op string) (obs string, v *eng.Violation) {
 		post := mod.VerifC10Snapshot(s.dm)
 		// classify by the cursor the modifier actually stored
 		switch {
-		case wh == io.SeekEnd && off != 0 && post.CurWrOff == uint64(S-off):
+		case wh == io.SeekEnd && off != 0 && (post.CurWrOff == uint64(S-off) || (off < 0 && err != nil && post.Root != pre.Root)):
+			// the stored cursor is size-offset, or the call failed after it
+			// had already begun growing the file towards size-offset
 			feat[1] = "seek-end-offset-subtracted"
 		case ok2(wh) && abs < 0 && post.CurWrOff == uint64(abs):
 			feat[1] = "negative-position-stored"
@@ -488,6 +507,9 @@ func (s *sys) Do(op string) (obs string, v *eng.Violation) {
 		n, _ := strconv.Atoi(f[1])
 		feat = []string{"hazard", s.hazard("Read", pre, nil, s.cur)}
 		theRun.Add("execs_hazard_"+feat[1], 1)
+		if v := s.wedged(pre, n, feat, hidden); v != nil {
+			return "never-returns", v
+		}
 		buf := bytes.Repeat([]byte{0xEE}, n)
 		got, err := s.dm.Read(buf)
 		rem := S - s.cur
@@ -588,9 +610,10 @@ func (s *sys) Check() (v *eng.Violation) {
 	if feat == nil {
 		feat = []string{"hazard", "none"}
 	}
+	phase, pfeat := "Size/GetNode", feat
 	defer func() {
 		if e := recover(); e != nil {
-			v = s.viol("panic", "", fmt.Sprintf("observer panicked: %v\n%s", e, stack()), append(feat, "panic_site", panicSite()))
+			v = s.viol("panic", "", fmt.Sprintf("observer %s panicked: %v\n%s", phase, e, stack()), append(append([]string{}, pfeat...), "panic_site", panicSite()))
 		}
 	}()
 	S := int64(len(s.data))
@@ -641,13 +664,36 @@ func (s *sys) Check() (v *eng.Violation) {
 	// content through the modifier's own Read
 	pre := mod.VerifC10Snapshot(s.dm)
 	rfeat := []string{"hazard", s.hazard("Read", pre, nil, 0)}
+	phase, pfeat = "Seek(0,SeekStart)+read-to-EOF", rfeat
 	if o, err := s.dm.Seek(0, io.SeekStart); err != nil || o != 0 {
 		return s.viol("seek-result-mismatch", "Seek", fmt.Sprintf("final Seek(0,SeekStart)=%d,%v", o, err)+state, append(rfeat, "error_class", errClass(err)))
 	}
-	got2, err := io.ReadAll(s.dm)
-	if err != nil || !bytes.Equal(got2, s.data) {
-		return s.viol("readall-mismatch", "Read", fmt.Sprintf("Seek(0,SeekStart)+ReadAll through the modifier gives %d bytes %q err=%v; the file model has %d bytes %q",
-			len(got2), clip(got2), err, S, clip(s.data))+state, rfeat)
+	if v := s.wedged(mod.VerifC10Snapshot(s.dm), 512, rfeat, state); v != nil {
+		return v
+	}
+	// bounded ReadAll (a reader that keeps returning 0,nil must not hang the check)
+	var got2 []byte
+	var rerr error
+	for stalls := 0; len(got2) <= len(s.data)+64; {
+		buf := make([]byte, 512)
+		n, err := s.dm.Read(buf)
+		got2 = append(got2, buf[:n]...)
+		if err != nil {
+			if err != io.EOF {
+				rerr = err
+			}
+			break
+		}
+		if n == 0 {
+			if stalls++; stalls > 2 {
+				rerr = fmt.Errorf("Read keeps returning 0, nil")
+				break
+			}
+		}
+	}
+	if rerr != nil || !bytes.Equal(got2, s.data) {
+		return s.viol("readall-mismatch", "Read", fmt.Sprintf("Seek(0,SeekStart)+read-to-EOF through the modifier gives %d bytes %q err=%v; the file model has %d bytes %q",
+			len(got2), clip(got2), rerr, S, clip(s.data))+state, rfeat)
 	}
 	return nil
 }
